@@ -169,3 +169,128 @@ def amplification(tr):
             continue
         amp *= max(1.0, float(s / d) ** 0.5)
     return amp
+
+
+# ----------------------------------------------------------------------------- parameter chains
+# Mirror of coq/Interp/FrangeModel.v + FrangeRun.v (same names).  The two regenerated pieces
+# (frange_clamp, range_new_parameter_reject_x) are evaluated from the parsed C statements through
+# translate/ranges.py (py_clamp, py_decide_x).  Compared exactly with vm_compute of the Coq model on
+# every case of every run (checks/C10.py, obligation "tie:mirror==Coq chain model").
+# Parameters: ("S",) | ("V", fs) | ("U", other) | ("K", grid or None, other).   INF = "inf".
+INF = "inf"
+
+
+def walk(p):
+    while True:
+        if p[0] == "S":
+            return (F0, INF)
+        if p[0] == "V":
+            return (p[1][0] if p[1] else F0, p[1][-1] if p[1] else F0)
+        p = p[-1]
+
+
+def chain_end(p):
+    while p[0] in ("U", "K"):
+        p = p[-1]
+    return p
+
+
+def frange(rg, tr, p):
+    lo, hi = walk(p)
+    if p[0] == "K" and p[1] is not None:
+        g = p[1]
+        return rg.py_clamp(tr, g[0] if g else F0, g[-1] if g else F0, lo, hi)
+    return (lo, hi)
+
+
+def mk_correlated(min_dx, other, sfv, n, sigma):
+    if n < 1:
+        return None
+    if n == 1:
+        if any(s <= 0 for s in sigma[:1]):
+            return None
+        return ("K", None, other)
+    e = chain_end(other)
+    if sfv is None:
+        if e[0] != "V" or len(e[1]) != n:
+            return None
+        g = e[1]
+    else:
+        g = sfv
+        if (g[0] if g else F0) < 0:
+            return None
+        if any(b <= a for a, b in zip(g, g[1:])):
+            return None
+        if e[0] == "V":
+            fs = e[1]
+            if fs[-1] < g[0] or g[-1] < fs[0]:
+                return None
+    if any(s <= 0 for s in sigma):
+        return None
+    if any(b - a < min_dx for a, b in zip(g, g[1:])):
+        return None
+    return ("K", list(g), other)
+
+
+def build(min_dx, nodes):
+    made, prev = [], None
+    for nd in nodes:
+        if nd[0] == "S":
+            p = ("S",)
+        elif nd[0] == "V":
+            p = ("V", list(nd[1]))
+        elif prev is None:
+            p = None
+        elif nd[0] == "U":
+            p = ("U", prev)
+        else:
+            p = mk_correlated(min_dx, prev, nd[2], nd[1], nd[3])
+        if p is None:
+            return made, False
+        made.append(p)
+        prev = p
+    return made, True
+
+
+def single_ok(rg, tr, nl, nh, p):
+    lo, hi = frange(rg, tr, p)
+    return not rg.py_decide_x(tr, nl, nh, lo, hi)
+
+
+def hash_members(p):
+    out = [p]
+    while p[0] == "K":
+        p = p[2]
+        out.append(p)
+    return out
+
+
+def add_ok(rg, tr, nl, nh, p):
+    for q in hash_members(p):          # the parameter, then its correlates, stopping at the first refusal
+        if not single_ok(rg, tr, nl, nh, q):
+            return False
+    return True
+
+
+def set_ok(rg, tr, nl, nh, members):
+    return all(single_ok(rg, tr, nl, nh, q) for q in members)
+
+
+def consumed(p):
+    out = []
+    while p[0] == "K":
+        if p[1] is not None:
+            out.append((p[1][0], p[1][-1]))
+        p = p[2]
+    out.append(walk(p))
+    return out
+
+
+def chain_report(rg, tr, min_dx, nl, nh, nodes):
+    """-> (number made, [(lo, hi)], None | (add_ok, set_ok))"""
+    made, ok = build(min_dx, nodes)
+    fr = [frange(rg, tr, p) for p in made]
+    if ok and made:
+        head = made[-1]
+        return len(made), fr, (add_ok(rg, tr, nl, nh, head), set_ok(rg, tr, nl, nh, list(reversed(hash_members(head)))))
+    return len(made), fr, None
